@@ -3,9 +3,13 @@ package checks
 import (
 	"bytes"
 	"fmt"
+	"os"
+	"path/filepath"
 	"strings"
 	"sync"
 	"sync/atomic"
+	"time"
+	"verif/internal/crash"
 
 	"verif/internal/core"
 	"verif/internal/sched"
@@ -186,6 +190,7 @@ func c13PartialVisibility(env *core.Env, f *concFix, alpha []c02Cmd) map[string]
 		name  string
 		store core.Store
 		log   []byte
+		full  []byte // the log after the complete write
 	}
 	var jobs []job
 	for _, pre := range []struct {
@@ -215,7 +220,7 @@ func c13PartialVisibility(env *core.Env, f *concFix, alpha []c02Cmd) map[string]
 			}
 			for c := range cuts {
 				if c > 0 && c < len(batch) {
-					jobs = append(jobs, job{fmt.Sprintf("%s/%s first %d of %d bytes", pre.name, wcmd.Name, c, len(batch)), pre.st, append(append([]byte{}, old...), batch[:c]...)})
+					jobs = append(jobs, job{fmt.Sprintf("%s/%s first %d of %d bytes", pre.name, wcmd.Name, c, len(batch)), pre.st, append(append([]byte{}, old...), batch[:c]...), neu})
 				}
 			}
 		}
@@ -241,6 +246,58 @@ func c13PartialVisibility(env *core.Env, f *concFix, alpha []c02Cmd) map[string]
 			}
 		}
 	})
-	return map[string]interface{}{"partly_visible_logs": len(jobs), "reads": reads,
+	// the same with the rest of the write arriving while the reader is at work: the reader's tail probe (its fstat) is held
+	// back by 2.5 s (strace delay injection, production binary) and the harness completes the line 1 s after the
+	// reader started. Whichever of the two orders the reader's code uses (probe before or after its scan), and whichever
+	// way the timing falls on a loaded machine, a correct reader answers; one that combines "last line unparsable" from
+	// before with "file ends in a newline" from after reports a corrupt log.
+	var completed int64
+	{
+		var cutJobs []job
+		for _, j := range jobs {
+			if n := len(j.log); n > 0 && j.log[n-1] != '\n' && strings.HasPrefix(j.name, "S_A/") && len(cutJobs) < 6 {
+				cutJobs = append(cutJobs, j)
+			}
+		}
+		env.Parallel(len(cutJobs), func(w *core.Worker, i int) {
+			j := cutJobs[i]
+			root, scratch := crashWorkdir(w)
+			full := j.full
+			if len(full) <= len(j.log) || !bytes.HasPrefix(full, j.log) {
+				return
+			}
+			rest := full[len(j.log):]
+			if nl := bytes.IndexByte(rest, '\n'); nl >= 0 {
+				rest = rest[:nl+1]
+			}
+			for _, rd := range []core.Req{core.R("", "--json", "list", "--all"), core.R("", "list", "--all").In("")} {
+				st := j.store.WithLog(j.log)
+				st.Materialize(root)
+				done := make(chan struct{})
+				go func() {
+					time.Sleep(1000 * time.Millisecond)
+					if f, err := os.OpenFile(filepath.Join(root, st.LogName()), os.O_WRONLY|os.O_APPEND, 0); err == nil {
+						f.Write(rest)
+						f.Close()
+					}
+					close(done)
+				}()
+				t, err := crash.Run(env.Prod, root, rd, "fstat:delay_enter=2500000", scratch)
+				<-done
+				atomic.AddInt64(&completed, 1)
+				if err != nil {
+					continue
+				}
+				if t.Exit != 0 {
+					sig := "C13 kind=reader-fails-when-a-write-completes-under-it reader=" + strings.Join(rd.Args, "_")
+					if !env.ViolationSeen(sig) {
+						env.Violation(sig, fmt.Sprintf("%s: the log ends in the first part of an event; `%s` starts, the rest of the line arrives 1 s later (the reader's tail probe is delayed by 2.5 s): exit %d, %s", j.name, rd.Shell(), t.Exit, clipS(string(t.Err), 200)),
+							Trace{Kind: "trace", Store: st, Note: "needs the timing described in the detail (strace -e inject=fstat:delay_enter=2500000 on the reader, the rest of the line appended 1 s after its start)", Steps: []core.Req{rd}, Shell: []string{rd.Shell()}})
+					}
+				}
+			}
+		})
+	}
+	return map[string]interface{}{"partly_visible_logs": len(jobs), "reads": reads, "reads_with_the_line_completed_underneath": completed,
 		"rule": "old log + every line-boundary prefix (and 3 cuts inside a line) of every appending writer's batch, on S_A and on a store whose prune takes an epic with its child; 10 readers (5 JSON, 5 text) must exit 0"}
 }
